@@ -158,33 +158,39 @@ func (g *DirectedTargetGraph) GetDependants(target model.BuildNode) []model.Buil
 }
 
 // GetDescendants returns a list of nodes that are descendants (dependants) of the given node.
-// Recurses via the outEdges of each node.
+// Every descendant is returned once, no matter how many paths lead to it.
 func (g *DirectedTargetGraph) GetDescendants(target model.BuildNode) []model.BuildNode {
-	var descendants []model.BuildNode
-	for _, descendant := range g.outEdges[target.GetLabel()] {
-		verifhook.Count("graph.desc.visit")
-		descendants = append(descendants, descendant)
-
-		// Recurse
-		recursiveDescendants := g.GetDescendants(descendant)
-		descendants = append(descendants, recursiveDescendants...)
-	}
-	return descendants
+	return g.collectReachable(target, g.outEdges, "graph.desc.visit")
 }
 
 // GetAncestors returns a list of nodes that are ancestors (transitive dependencies) of the given node.
-// Recurses via the inEdges of each node.
+// Every ancestor is returned once, no matter how many paths lead to it.
 func (g *DirectedTargetGraph) GetAncestors(target model.BuildNode) []model.BuildNode {
-	var ancestors []model.BuildNode
-	for _, ancestor := range g.inEdges[target.GetLabel()] {
-		verifhook.Count("graph.anc.visit")
-		ancestors = append(ancestors, ancestor)
+	return g.collectReachable(target, g.inEdges, "graph.anc.visit")
+}
 
-		// Recurse
-		recursiveAncestors := g.GetAncestors(ancestor)
-		ancestors = append(ancestors, recursiveAncestors...)
+// collectReachable walks the given edges depth first and visits every reachable node only once
+func (g *DirectedTargetGraph) collectReachable(
+	start model.BuildNode,
+	edges map[label.TargetLabel][]model.BuildNode,
+	counterName string,
+) []model.BuildNode {
+	visited := make(map[label.TargetLabel]struct{})
+	var reachable []model.BuildNode
+	var visit func(node model.BuildNode)
+	visit = func(node model.BuildNode) {
+		for _, next := range edges[node.GetLabel()] {
+			verifhook.Count(counterName)
+			if _, seen := visited[next.GetLabel()]; seen {
+				continue
+			}
+			visited[next.GetLabel()] = struct{}{}
+			reachable = append(reachable, next)
+			visit(next)
+		}
 	}
-	return ancestors
+	visit(start)
+	return reachable
 }
 
 // hasNode checks whether a node exists in the graph.
